@@ -208,6 +208,7 @@ def strip_par(e):
 
 def run_expr(job, acc):
     batch = []
+    nflush = [0]
 
     def flush():
         if not batch:
@@ -226,6 +227,15 @@ def run_expr(job, acc):
             single_bad = any(v["case"].get("exprs") and len(v["case"]["exprs"]) == 1 for v in acc.violations)
             if bad != ["*"] and not single_bad:
                 report(acc, "expr", {"kind": "expr", "exprs": list(batch)}, text, bad, ["only-in-combination"])
+        elif nflush[0] % 3 == 0:
+            # the same module with no white space wherever the language allows none (a^b, a&~b, y=a|b;)
+            toks = V.module_tokens(m)
+            dense = V.render(toks, {i: "" for i in range(len(toks) - 1)})
+            dc = {"kind": "expr", "exprs": list(batch), "dense": True}
+            db = check_module(acc, m, dense, dc, "expr")
+            if db and db != ["*"]:
+                report(acc, "expr", dc, dense, db, ["dense-layout"])
+        nflush[0] += 1
         batch.clear()
 
     for _idx, e in space.chunk(expr_space(job["tier"]), job["chunk"], job["of"]):
@@ -508,7 +518,11 @@ def layout_programs():
           "items": [["input", ["a", "\\b[0]"]], ["output", ["y", "z"]], ["wire", ["q"]],
                     ["bb", "ff", "f0", [["clk", "a"], ["d", "\\b[0]"], ["q", "q"]]],
                     ["assign", [["y", ("tern", W("q"), A, ("c", "1'b1"))], ["z", ("and", ("not", "!", W("q")), W("\\b[0]"))]]]]}
-    return [m1, m2]
+    m3 = {"name": "top", "ports": ["a", "b", "c", "y", "z"],
+          "items": [["input", ["a", "b", "c"]], ["output", ["y", "z"]],
+                    ["assign", [["y", ("or", ("xor", A, ("and", B, C)), ("xnor", "~^", A, B))]]],
+                    ["assign", [["z", ("tern", ("xor", A, B), ("and", B, ("not", "~", C)), ("xnor", "^~", C, A))]]]]}
+    return [m1, m2, m3]
 
 
 def run_layout(job, acc):
@@ -517,7 +531,8 @@ def run_layout(job, acc):
     for pi, m in enumerate(layout_programs()):
         toks = V.module_tokens(m)
         protect = V.header_close_positions(toks)
-        for gaps in V.layouts(toks, dev, protect):
+        dense_all = {i: "" for i in range(len(toks) - 1) if i not in protect}
+        for gaps in itertools.chain(V.layouts(toks, dev, protect), [dense_all]):
             idx += 1
             if idx % job["of"] != job["chunk"]:
                 continue
@@ -611,7 +626,8 @@ def replay(case, job):
     if k == "expr":
         es = [V.tuple_expr(e) for e in case["exprs"]]
         m = expr_module(es)
-        text = V.render(V.module_tokens(m))
+        toks = V.module_tokens(m)
+        text = V.render(toks, {i: "" for i in range(len(toks) - 1)}) if case.get("dense") else V.render(toks)
         bad = check_module(acc, m, text, clean, "expr")
         if bad and bad != ["*"]:
             fl = shape_flags(es[0]) if len(es) == 1 else ["only-in-combination"]
